@@ -15,6 +15,14 @@
 (* EndRun: the final reset (FinalReset = FALSE: omitted - negative variant).   *)
 (* A behaviour is two sessions built the same way with the same seed; the      *)
 (* rows of the second must equal the rows of the first.                        *)
+(*                                                                            *)
+(* Variable handles: every perturbation and the compensator hold the value     *)
+(* their variable had when the handle was made (Variable.initial_value, here   *)
+(* initv); reset() writes those back.  Nothing in the protocol re-bases them   *)
+(* (CompRebases = TRUE is the negative variant in which the compensation       *)
+(* records its starting point as the value to return to).  After a run the     *)
+(* user may go on with the same object (phase "whatif", at most MaxUser steps):*)
+(* Perturbation.apply(), apply_compensators(), in any order, then reset().     *)
 EXTENDS Integers, Sequences, FiniteSets, TLC
 CONSTANTS Values,       \* sample values of a variable
           Nom,          \* nominal lens [p1, p2, c]
@@ -28,15 +36,18 @@ CONSTANTS Values,       \* sample values of a variable
           CompFns,      \* admissible compensations: set of [[p1, p2] -> Values]
           FailSets,     \* admissible sets of lens states with undefined operands
           TrialReset,   \* BOOLEAN: reset before every trial
-          FinalReset    \* BOOLEAN: reset when the run completes
+          FinalReset,   \* BOOLEAN: reset when the run completes
+          CompRebases,  \* BOOLEAN: a compensation re-bases the compensator's initial value (negative variant)
+          MaxUser       \* user what-if steps allowed after a run (0: none)
 Perts == <<"p1", "p2">>
 NaN == -1                 \* the undefined operand value (operand values are >= 0)
 VARIABLES lens, kinds, stream, compf, fail,      \* the lens; the environment's choices (fixed)
           idx, pos,                              \* sampler state: range index per perturbation, stream position
           pval,                                  \* Perturbation.value per perturbation
           phase, k, it,                          \* loop control: perturbation (sens), trial
-          rows, session, rows1
-vars == <<lens, kinds, stream, compf, fail, idx, pos, pval, phase, k, it, rows, session, rows1>>
+          rows, session, rows1,
+          initv, usteps                          \* Variable.initial_value per handle; user steps taken
+vars == <<lens, kinds, stream, compf, fail, idx, pos, pval, phase, k, it, rows, session, rows1, initv, usteps>>
 HasComp == WithComp
 \* the operand: injective on the grid, undefined on the failure set
 Eval(l) == IF l \in fail THEN NaN ELSE l.p1 + 3 * l.p2 + 9 * l.c
@@ -46,14 +57,15 @@ Init == /\ lens = Nom /\ kinds \in KindSets /\ stream \in Streams /\ fail \in Fa
         /\ compf \in CompFns
         /\ idx = [p \in {"p1", "p2"} |-> 0] /\ pos = 0 /\ pval = NomPert
         /\ phase = "reset" /\ k = 1 /\ it = 1 /\ rows = <<>> /\ session = 1 /\ rows1 = <<>>
+        /\ initv = Nom /\ usteps = 0
 Env == <<kinds, stream, compf, fail>>
 
 \* Tolerancing.reset(): every perturbation and every compensator back to its initial value
-DoReset == /\ lens' = Nom /\ pval' = NomPert
+DoReset == /\ lens' = initv /\ pval' = NomPert
 Reset == /\ phase = "reset"
          /\ IF TrialReset THEN DoReset ELSE UNCHANGED <<lens, pval>>
          /\ phase' = "apply"
-         /\ UNCHANGED <<Env, idx, pos, k, it, rows, session, rows1>>
+         /\ UNCHANGED <<Env, idx, pos, k, it, rows, session, rows1, initv, usteps>>
 \* Perturbation.apply(): sample, remember the value, set the variable
 NeedsStream(ps) == Cardinality({p \in ps : kinds[p] = "dist"})
 Sampled(p, i, q) == CASE kinds[p] = "scalar" -> ScalarVal
@@ -72,11 +84,14 @@ Apply ==
        /\ idx' = [p \in {"p1", "p2"} |-> IF p \in ps /\ kinds[p] = "range" THEN (idx[p] % Len(RangeVals)) + 1 ELSE idx[p]]
        /\ pos' = pos + NeedsStream(ps)
   /\ phase' = "comp"
-  /\ UNCHANGED <<Env, k, it, rows, session, rows1>>
+  /\ UNCHANGED <<Env, k, it, rows, session, rows1, initv, usteps>>
+\* CompensatorOptimizer.run(): the optimiser moves the compensator variable only
+DoCompensate == /\ lens' = IF HasComp THEN [lens EXCEPT !.c = compf[PertOf(lens)]] ELSE lens
+                /\ initv' = IF HasComp /\ CompRebases THEN [initv EXCEPT !.c = lens.c] ELSE initv
 Compensate == /\ phase = "comp"
-              /\ lens' = IF HasComp THEN [lens EXCEPT !.c = compf[PertOf(lens)]] ELSE lens
+              /\ DoCompensate
               /\ phase' = "eval"
-              /\ UNCHANGED <<Env, idx, pos, pval, k, it, rows, session, rows1>>
+              /\ UNCHANGED <<Env, idx, pos, pval, k, it, rows, session, rows1, usteps>>
 \* evaluate the operands and record the row: perturbation values as remembered,
 \* compensator value as read from the lens, operand value (possibly NaN)
 LastTrial == IF Shape = "sens" THEN it = Len(RangeVals) /\ k = Len(Perts) ELSE it = NTrials
@@ -87,20 +102,40 @@ Record == /\ phase = "eval"
              ELSE /\ phase' = "reset"
                   /\ IF Shape = "sens" /\ it = Len(RangeVals) THEN k' = k + 1 /\ it' = 1
                      ELSE k' = k /\ it' = it + 1
-          /\ UNCHANGED <<Env, lens, idx, pos, pval, session, rows1>>
+          /\ UNCHANGED <<Env, lens, idx, pos, pval, session, rows1, initv, usteps>>
 EndRun == /\ phase = "end"
           /\ IF FinalReset THEN DoReset ELSE UNCHANGED <<lens, pval>>
           /\ phase' = "done"
-          /\ UNCHANGED <<Env, idx, pos, k, it, rows, session, rows1>>
-\* the user's own reset() after a run
-UserReset == /\ phase = "done" /\ DoReset /\ UNCHANGED <<Env, idx, pos, phase, k, it, rows, session, rows1>>
+          /\ UNCHANGED <<Env, idx, pos, k, it, rows, session, rows1, initv, usteps>>
+\* the user goes on with the same object: one perturbation applied by hand (its sampler advances) ...
+UserApply(p) ==
+  /\ phase \in {"done", "whatif"} /\ usteps < MaxUser
+  /\ pos + (IF kinds[p] = "dist" THEN 1 ELSE 0) <= Len(stream)
+  /\ LET v == Sampled(p, idx[p], pos) IN
+       /\ lens' = IF p = "p1" THEN [lens EXCEPT !.p1 = v] ELSE [lens EXCEPT !.p2 = v]
+       /\ pval' = [pval EXCEPT ![p] = v]
+  /\ idx' = [idx EXCEPT ![p] = IF kinds[p] = "range" THEN (idx[p] % Len(RangeVals)) + 1 ELSE @]
+  /\ pos' = pos + (IF kinds[p] = "dist" THEN 1 ELSE 0)
+  /\ phase' = "whatif" /\ usteps' = usteps + 1
+  /\ UNCHANGED <<Env, k, it, rows, session, rows1, initv>>
+\* ... or apply_compensators() by hand, without a reset in between
+UserCompensate ==
+  /\ phase \in {"done", "whatif"} /\ usteps < MaxUser /\ HasComp
+  /\ DoCompensate
+  /\ phase' = "whatif" /\ usteps' = usteps + 1
+  /\ UNCHANGED <<Env, idx, pos, pval, k, it, rows, session, rows1>>
+\* the user's own reset() after a run / after a what-if
+UserReset == /\ phase \in {"done", "whatif"} /\ DoReset /\ phase' = "done"
+             /\ UNCHANGED <<Env, idx, pos, k, it, rows, session, rows1, initv, usteps>>
 \* the same analysis built again with the same seed (fresh samplers, same stream)
 NewSession == /\ phase = "done" /\ session = 1
               /\ session' = 2 /\ rows1' = rows /\ rows' = <<>>
               /\ lens' = Nom /\ pval' = NomPert /\ idx' = [p \in {"p1", "p2"} |-> 0] /\ pos' = 0
               /\ phase' = "reset" /\ k' = 1 /\ it' = 1
+              /\ initv' = Nom /\ usteps' = 0
               /\ UNCHANGED Env
 Next == Reset \/ Apply \/ Compensate \/ Record \/ EndRun \/ UserReset \/ NewSession
+        \/ UserCompensate \/ \E p \in {"p1", "p2"} : UserApply(p)
 Spec == Init /\ [][Next]_vars
 
 --------------------------------------------------------------------------
@@ -114,8 +149,12 @@ RowsTrue == \A i \in 1..Len(rows) : rows[i].val = Eval(Claimed(rows[i]))
 NominalReproduced == \A i \in 1..Len(rows) :
                         (PertOf(Claimed(rows[i])) = NomPert /\ rows[i].comp = Nom.c) => rows[i].val = Eval(Nom)
 Reproducible == (session = 2 /\ phase = "done") => rows = rows1
+\* phase "done": the run has completed, or the user has called reset() after a what-if
 EndStateNominal == phase = "done" => lens = Nom
 ResetRestores == [][UserReset => lens' = Nom]_vars
-TypeOK == /\ phase \in {"reset", "apply", "comp", "eval", "end", "done"} /\ session \in {1, 2}
+\* what makes reset() right: no step re-bases a handle
+HandlesNominal == initv = Nom
+TypeOK == /\ phase \in {"reset", "apply", "comp", "eval", "end", "done", "whatif"} /\ session \in {1, 2}
           /\ lens.p1 \in Values /\ lens.p2 \in Values /\ lens.c \in Values
+          /\ usteps \in 0..MaxUser
 =============================================================================
